@@ -297,3 +297,137 @@ def shared_mutations(repo: Repo, fi: FunctionInfo, shared: Dict[str, str] = None
         if k == "array":
             out.append((st, tgt, f"`{src(tgt)}` may be (a view of) an array that is cached/shared between calls"))
     return out
+
+
+# ------------------------------------------------------------------------------------------------ argument purity
+ALIAS_PRESERVING = ("atleast_1d", "atleast_2d", "atleast_3d", "asarray", "asanyarray", "ascontiguousarray", "asfarray", "squeeze", "ravel", "reshape",
+                    "transpose", "swapaxes", "view", "broadcast_to", "expand_dims", "moveaxis")
+
+
+def aliases_param(repo: Repo, fi: FunctionInfo, du: DefUse, e: ast.AST, at: ast.AST, params: Sequence[str], depth: int = 0) -> Optional[str]:
+    """Name of the parameter that expression e may alias (same buffer), following views and alias-preserving numpy calls."""
+    if depth > 6 or e is None:
+        return None
+    e = view_source(e)
+    if isinstance(e, ast.Name):
+        if e.id in params:
+            ds = du.reaching(e.id, at)
+            if any(d.kind == "param" for d in ds):
+                return e.id
+        for d in du.reaching(e.id, at):
+            if d.kind == "assign" and d.value is not None and d.unpack_index is None:
+                r = aliases_param(repo, fi, du, d.value, d.stmt, params, depth + 1)
+                if r:
+                    return r
+            elif d.kind == "aug" and d.stmt is not None:
+                # x op= y keeps the identity of x: look at what x was before
+                for d2 in du.reaching(e.id, d.stmt):
+                    if d2.kind == "param" and e.id in params:
+                        return e.id
+                    if d2.kind == "assign" and d2.value is not None and d2.idx != d.idx:
+                        r = aliases_param(repo, fi, du, d2.value, d2.stmt, params, depth + 1)
+                        if r:
+                            return r
+        return None
+    if isinstance(e, ast.Call):
+        nm = call_name(e)
+        if nm in ALIAS_PRESERVING:
+            a = e.args[0] if e.args and not (isinstance(e.func, ast.Attribute) and nm in VIEW_METHODS and not _is_np(e.func.value)) else \
+                (e.func.value if isinstance(e.func, ast.Attribute) else None)
+            return aliases_param(repo, fi, du, a, at, params, depth + 1)
+    return None
+
+
+def _is_np(e):
+    return isinstance(e, ast.Name) and e.id in ("np", "numpy", "gp", "cp")
+
+
+def param_mutations(repo: Repo, fi: FunctionInfo, params: Sequence[str]):
+    """In-place operations whose target may alias one of `params` (the caller's own array).  -> [(stmt, target, param)]"""
+    du = DefUse(fi.node)
+    out = []
+    for st, tgt in inplace_mutations(fi.node):
+        t = tgt
+        if isinstance(t, ast.Subscript):
+            t = t.value
+        p = aliases_param(repo, fi, du, t, st, params)
+        if p:
+            out.append((st, tgt, p))
+    return out
+
+
+# ------------------------------------------------------------------------------------------------ buffer identity between values
+def returns_view_of_param(repo: Repo, callee: FunctionInfo) -> Optional[str]:
+    """Name of the parameter whose buffer the callee's return value may share (basic slicing / alias-preserving calls), else None."""
+    du = DefUse(callee.node)
+    params = [p for p in callee.params if p != "self"]
+    for r in returns_of(callee.node):
+        if r.value is None:
+            continue
+        p = aliases_param(repo, callee, du, r.value, r, params)
+        if p:
+            return p
+    return None
+
+
+def buffer_roots(repo: Repo, fi: FunctionInfo, du: DefUse, e: ast.AST, at: ast.AST, depth: int = 0) -> Set[str]:
+    """Identifiers of the buffers that expression e may share memory with: the local (at its defining line) that first held a fresh
+    array, followed through views, alias-preserving calls and repository functions returning a view of an argument.  A fresh
+    expression (a reader read, an arithmetic result, a numpy constructor) is its own root."""
+    if depth > 8 or e is None:
+        return set()
+    # indexing an object of a repository class (e.g. a spikeglx.Reader) goes through its __getitem__, which returns a new array
+    cur = e
+    while True:
+        if isinstance(cur, ast.Subscript):
+            base = cur.value
+            if isinstance(base, ast.Attribute) and isinstance(base.value, ast.Name) and base.value.id == "self":
+                clsq = repo.class_of(fi)
+                t = repo.class_attr_types.get((clsq, base.attr)) if clsq else None
+                if t and repo.method(t, "__getitem__"):
+                    return {f"fresh@{getattr(cur, 'lineno', 0)}:{getattr(cur, 'col_offset', 0)}"}
+            if isinstance(base, ast.Name):
+                lt = repo.local_types(fi).get(base.id)
+                if lt and repo.method(lt, "__getitem__"):
+                    return {f"fresh@{getattr(cur, 'lineno', 0)}:{getattr(cur, 'col_offset', 0)}"}
+            cur = base
+        elif isinstance(cur, ast.Attribute) and cur.attr in ("T", "real", "imag"):
+            cur = cur.value
+        elif isinstance(cur, ast.Call) and isinstance(cur.func, ast.Attribute) and cur.func.attr in VIEW_METHODS:
+            cur = cur.func.value
+        else:
+            break
+    b = view_source(e)
+    if isinstance(b, ast.Call):
+        q = repo.resolve_call(fi, b)
+        if q in repo.functions:
+            callee = repo.functions[q]
+            p = returns_view_of_param(repo, callee)
+            if p:
+                from .calls import bind
+                arg = bind(b, callee).bound.get(p)
+                if arg is not None:
+                    return buffer_roots(repo, fi, du, arg, at, depth + 1)
+            return {f"fresh@{getattr(b, 'lineno', 0)}:{getattr(b, 'col_offset', 0)}"}
+        if call_name(b) in ALIAS_PRESERVING and (b.args or isinstance(b.func, ast.Attribute)):
+            a = b.args[0] if b.args and _is_np(getattr(b.func, "value", None)) else (b.func.value if isinstance(b.func, ast.Attribute) else (b.args[0] if b.args else None))
+            return buffer_roots(repo, fi, du, a, at, depth + 1)
+        return {f"fresh@{getattr(b, 'lineno', 0)}:{getattr(b, 'col_offset', 0)}"}
+    if isinstance(b, ast.Name):
+        out: Set[str] = set()
+        defs = [d for d in du.reaching(b.id, at) if d.kind in ("assign", "param", "for", "unpack", "with")]
+        if not defs:
+            return {b.id}
+        for d in defs:
+            if d.kind == "assign" and d.value is not None and d.unpack_index is None:
+                vs = view_source(d.value)
+                if isinstance(vs, ast.Name) or (isinstance(vs, ast.Call) and (repo.resolve_call(fi, vs) in repo.functions or call_name(vs) in ALIAS_PRESERVING)):
+                    out |= buffer_roots(repo, fi, du, d.value, d.stmt, depth + 1)
+                else:
+                    out.add(f"{b.id}@{d.lineno}")
+            else:
+                out.add(f"{b.id}@{d.lineno}")
+        return out
+    if isinstance(b, ast.Attribute) and loc_name(b):
+        return {loc_name(b)}
+    return {f"fresh@{getattr(b, 'lineno', 0)}:{getattr(b, 'col_offset', 0)}"}
